@@ -429,6 +429,9 @@ func (s *runtimeState) resolveIngress(r *http.Request, requestPath string) (stri
 	}
 
 	for _, rt := range s.routes {
+		if !routeAcceptsIngress(rt) {
+			continue
+		}
 		if !router.MatchPath(requestPath, rt.Path) {
 			continue
 		}
@@ -452,6 +455,12 @@ func (s *runtimeState) resolveIngress(r *http.Request, requestPath string) (stri
 	return "", false
 }
 
+// routeAcceptsIngress reports whether the ingress listener may serve the
+// route: outbound and internal channels take no ingress traffic.
+func routeAcceptsIngress(rt config.CompiledRoute) bool {
+	return rt.ChannelType == config.ChannelDefault || rt.ChannelType == config.ChannelInbound
+}
+
 func (s *runtimeState) allowedMethodsFor(r *http.Request, requestPath string) []string {
 	if r == nil {
 		return nil
@@ -468,6 +477,9 @@ func (s *runtimeState) allowedMethodsFor(r *http.Request, requestPath string) []
 	var out []string
 
 	for _, rt := range s.routes {
+		if !routeAcceptsIngress(rt) {
+			continue
+		}
 		if !router.MatchPath(requestPath, rt.Path) {
 			continue
 		}
